@@ -66,10 +66,10 @@ namespace rkcommon {
                     " INDEX_T to be unsigned char, short, int, uint, long,"
                     " or size_t.");
 
-      INDEX_T numBlocks = (nTasks + BLOCK_SIZE - 1) / BLOCK_SIZE;
+      INDEX_T numBlocks = nTasks > 0 ? (nTasks - 1) / BLOCK_SIZE + 1 : 0;
       parallel_for(numBlocks, [&](INDEX_T blockID) {
         INDEX_T begin = blockID * (INDEX_T)BLOCK_SIZE;
-        INDEX_T end   = std::min(begin + (INDEX_T)BLOCK_SIZE, nTasks);
+        INDEX_T end   = begin + std::min<INDEX_T>(BLOCK_SIZE, nTasks - begin);
         fcn(begin, end);
       });
     }
